@@ -12,6 +12,9 @@ CONSTANTS
   NumpyOps <- N_NumpyNames
   ReaderPerBlock = FALSE
   OverwriteTags <- None_
+  StickyKwargs = FALSE
+  LazySetitemLost = FALSE
+  SharedHandle = FALSE
 VIEW View
 PROPERTY StaysDask
 CHECK_DEADLOCK FALSE
